@@ -9,6 +9,8 @@ ends up as `[pkg.resources[sel].name]`) without caring through how many local na
 Loops are not entered: a name assigned inside a loop the path passes through is dropped from the environment (unknown).
 """
 import ast
+
+from .astcopy import clone
 import copy
 
 from .deps import pseudo
@@ -20,13 +22,13 @@ class _Subst(ast.NodeTransformer):
 
     def visit_Name(self, n):
         if isinstance(n.ctx, ast.Load) and n.id in self.env:
-            return copy.deepcopy(self.env[n.id])
+            return clone(self.env[n.id])
         return n
 
     def visit_Attribute(self, n):
         p = pseudo(n)
         if isinstance(n.ctx, ast.Load) and p is not None and p in self.env:
-            return copy.deepcopy(self.env[p])
+            return clone(self.env[p])
         return self.generic_visit(n)
 
     def visit_Lambda(self, n):
@@ -36,7 +38,7 @@ class _Subst(ast.NodeTransformer):
 def subst(expr, env):
     if expr is None:
         return None
-    return _Subst(env).visit(copy.deepcopy(expr))
+    return _Subst(env).visit(clone(expr))
 
 
 def _assigned_names(node):
@@ -91,7 +93,7 @@ class PathValues:
                     # any other statement (store into a subscript / attribute, call, augmented assignment): keep a copy with
                     # the values known at this point substituted into the names it reads
                     try:
-                        self.stmts.append((st, _Subst(self.env).visit(copy.deepcopy(st))))
+                        self.stmts.append((st, _Subst(self.env).visit(clone(st))))
                     except Exception:
                         pass
                     for nm in _assigned_names(st):
